@@ -39,8 +39,8 @@ def enabled(tree, meta):
     if meta["edits"] < meta["max_edits"] and meta["cmds"] >= 1 and meta["cmds"] < meta["max_cmds"]:
         m3 = dict(meta, edits=meta["edits"] + 1)
         for e in (["rm", "a.txt"], ["write", "a.txt", b"A-altered"], ["write", "n.txt", b"N"], ["rm", "d/b.txt"],
-                  ["write", "d/b.txt", b"B-altered"]):
-            if e[0] == "rm" and e[1] not in med:
+                  ["write", "d/b.txt", b"B-altered"]) + ((["retype", "a.txt"], ["retype", "n.txt"]) if meta.get("rich") else ()):
+            if e[0] in ("rm", "retype") and e[1] not in med:
                 continue
             if e[0] == "write" and med.get(e[1]) == e[2]:
                 continue
@@ -156,6 +156,9 @@ def main(tier, seed):
     plans.append(dict(max_cmds=2 if tier == "quick" else 3, max_edits=1, tz="Pacific/Kiritimati"))
     if tier != "quick":
         plans.append(dict(max_cmds=3, max_edits=0, tz="America/St_Johns"))
+    # ... nor on how the root folder is spelled on the command line: '.', 'dir/.', 'dir/', './dir'
+    for sp in ("dot", "slashdot") + (("slash", "rel") if tier != "quick" else ()):
+        plans.append(dict(max_cmds=2 if tier == "quick" else 3, max_edits=0, spell=sp))
     for pl in plans:
         meta = dict(alpha="c06", oracles=["c06"], cmds=0, edits=0, **pl)
         inits = [(dict(BASE), meta, "base"), ({}, meta, "empty-folder")]
@@ -171,7 +174,7 @@ def main(tier, seed):
            "rule": "(plus one long-history plan: 12-14 consecutive generations in a root and a nested history, -sf and child runs "
                    "interleaved at steps 3/9/10, so that generation numbers pass 9 -> 10) BFS from a bare tree (and an empty folder): create with two format sets, create -sf (root and nested file), "
                    "create in two nested roots, delete/alter/add edits that make later runs exit 10/11; clock +10 s per "
-                   "command and frozen clock; a plan run in the zones UTC+14 (thorough: also UTC-3:30); after every create: old manifests byte-identical, exactly one new manifest per "
+                   "command and frozen clock; a plan run in the zones UTC+14 (thorough: also UTC-3:30); plans with the root spelled '.', 'dir/.' (thorough: also 'dir/', './dir'); after every create: old manifests byte-identical, exactly one new manifest per "
                    "changed ascmhl folder numbered max+1 with the NNNN_<folder>_<UTC>Z.mhl name, chain = old entries + one "
                    "entry matching the new file's bytes, tool's loader yields 1..n"}
     return eng.finish(cov, eval_case)
